@@ -521,22 +521,18 @@ def step (s : St) : Ev → Option St
 
 /-! ## candidates -/
 
-/-- `close(doneCh)` and the end of a drained call touch only their own call entry, are enabled by
-nothing but time and are disabled by nothing: taking them first loses no observable behaviour. -/
-def urgentCands (s : St) : List Ev :=
-  ((List.range s.calls.length).flatMap fun i => [Ev.done i, Ev.drained i]).filter fun e => (step s e).isSome
-
+/-- every internal event that can be enabled in `s` (`complete_refcount` in Transfer.lean): the checker
+tries all of them — no partial-order reduction, so a REJECT is a statement about the model as it is -/
 def allInternal (s : St) : List Ev :=
-  ((List.range s.th.length).flatMap fun a => [.addRefCS a, .relSwap a, .relCS a, .setCtxCS a]) ++
+  ((List.range s.th.length).flatMap fun a =>
+    [.addRefCS a, .relSwap a, .relCS a, .setCtxCS a, .selfRelSwap a, .selfRelCS a]) ++
   ((List.range s.calls.length).flatMap fun i => [.giveUp i, .drained i, .store i, .done i]) ++
   ((List.range s.relRuns.length).map fun j => .relRun j) ++
   ((headBatch s).filterMap fun it => match it with
     | .refcb r false res v e => some (.cb (.refcb r false res v e))
     | _ => none)
 
-def internalCands (s : St) : List Ev :=
-  let u := urgentCands s
-  if u.isEmpty then allInternal s else u
+def internalCands (s : St) : List Ev := allInternal s
 
 def evsOf (s : St) : Obs → List Ev
   | .cfg k c t => [.cfg k c t]
@@ -552,7 +548,9 @@ def evsOf (s : St) : Obs → List Ev
   | .cbinResolver k => (List.range s.calls.length).map fun i => .enter i k
   | .cboutResolver k v h e => (List.range s.calls.length).map fun i => .leave i k v h e
   | .cbinRefcb r res v e => [.cb (.refcb r true res v e)]
-  | .cbinRel k seen => (List.range s.calls.length).map fun i => .cb (.rel i k seen)
+  | .cbinRel k seen => (headBatch s).filterMap fun it => match it with
+    | .rel i k' seen' => if k' = k ∧ seen' = seen then some (.cb (.rel i k' seen')) else none
+    | _ => none
   | .invHook a => [.invHook a]
   | .probe v e => [.probe v e]
   | .quiesce B => [.quiesce B]
